@@ -1763,6 +1763,13 @@ class Cluster(object):
                 self._is_setup = True
 
         session = self._new_session(keyspace)
+        # shutdown() may have run since the test above; a session created after its
+        # sweep of self.sessions would keep its pools open for ever
+        with self._lock:
+            shut_down_meanwhile = self.is_shutdown
+        if shut_down_meanwhile:
+            session.shutdown()
+            raise DriverException("Cluster is already shut down")
         if wait_for_all_pools:
             wait_futures(session._initial_connect_futures)
 
